@@ -50,6 +50,10 @@ class Konts:
         return k
 
 
+def n_is_store(mods):
+    return 'store' in mods
+
+
 _PH = re.compile(r'\{([A-Za-z_][A-Za-z0-9_.]*)\}')
 
 
@@ -106,7 +110,8 @@ class Executor:
         self.yield_ord = {}
         self.dropped = []            # statements dropped by the extraction rules (DESIGN 2.2)
         self.theory = theory
-        self.comps = list(self.COMPS) + (list(theory.COMPS) if theory else [])
+        self.comps = (list(self.COMPS) if not (theory and getattr(theory, 'NO_TERM_COMPS', False)) else []) + \
+            (list(theory.COMPS) if theory else [])
         self.paths = 0
         n = 0
         y = 0
@@ -185,7 +190,8 @@ class Executor:
         for n, sort in self.comps:
             st.comp[n] = self.fresh(sort, n + '0')
         st.entry = dict(st.comp)
-        st.assume('(>= %s 0)' % st.comp['nexth'])      # handle ids are allocated from 0 upwards
+        if 'nexth' in st.comp:
+            st.assume('(>= %s 0)' % st.comp['nexth'])      # handle ids are allocated from 0 upwards
         args = self.fn.args
         names = [a.arg for a in args.args]
         if args.vararg or args.kwonlyargs or args.kwarg:
@@ -256,6 +262,8 @@ class Executor:
             self.extra_ensures(st, val)
             return
         if c.kind in ('pure', 'fn'):
+            if c.ret and val.sort != c.ret and self.theory and self.theory.coerce(self, val, c.ret, st) is not None:
+                val = self.theory.coerce(self, val, c.ret, st)
             if c.ret and c.ret != 'None' and val.sort == 'None' and c.ret not in ('Any',):
                 self.oblige(st, 'returns_value', 'false', 'safety')
                 return
@@ -678,7 +686,7 @@ class Executor:
     def _for_range(self, s, n, spec, bound, st, k):
         var = s.target.id
         mods = self.assigned_names(s.body) | {var}
-        st.ghost['loop%d_pre_store' % n] = st.comp['store']
+        st.ghost['loop%d_pre_store' % n] = st.comp.get('store', '')
         ex0 = {'k': '0', 'n': bound.e}
         for j, inv in enumerate(spec.inv):
             self.oblige(st.fork().tag('loop%d.init' % n), 'loop%d.inv%d' % (n, j), self.fmt(inv, st, ex0), 'inv')
@@ -957,6 +965,10 @@ class Executor:
         return [(s2, it if isinstance(it, Exc) else self.mk_pylist(it, s2)) for s2, it in outs]
 
     def mk_pylist(self, items, st):
+        if self.theory:
+            r = self.theory.mk_pylist(self, items, st)
+            if r is not None:
+                return r
         return SV('PyList', None, {'items': items})
 
     def ev_Tuple(self, e, st):
@@ -1404,8 +1416,9 @@ class Executor:
             for mk, mv in a.meta.items():
                 if isinstance(mv, str):
                     ex['%s.%s' % (pn, mk)] = mv
-        ex['S0'] = st.comp['store']
-        ex['S'] = st.comp['store']
+        if 'store' in st.comp:
+            ex['S0'] = st.comp['store']
+            ex['S'] = st.comp['store']
         for n, _ in self.comps:
             ex[n + '0'] = st.comp[n]
             ex[n] = st.comp[n]
@@ -1422,6 +1435,22 @@ class Executor:
         if c.kind in ('iterfn', 'semidet-gen'):
             h = self.new_handle(st, self.fmt_c(c.spec, ex), c.name.split('.')[-1])
             return [(st, h)]
+        if c.kind == 'fn':
+            # a function with effects: havoc what it may modify, assume its postcondition
+            for n in c.modifies:
+                sort = dict(self.comps)[n]
+                st.comp[n] = self.fresh(sort, n)
+                ex[n] = st.comp[n]
+            if n_is_store(c.modifies):
+                ex['S'] = st.comp['store']
+            res = None
+            if c.ret and c.ret != 'None':
+                r = self.fresh(self.smt_sort(c.ret), 'r')
+                ex['result'] = r
+                res = self.mk_ret(c.ret, r, st)
+            for en in c.ensures:
+                st.assume(self.fmt_c(en, ex))
+            return [(st, res if res is not None else NONE)]
         if self.theory:
             r = self.theory.apply_contract(self, e, c, args, ex, st)
             if r is not None:
@@ -1437,6 +1466,8 @@ class Executor:
         return _PH.sub(sub, tmpl)
 
     def smt_sort(self, s):
+        if self.theory and self.theory.smt_sort(s):
+            return self.theory.smt_sort(s)
         return {'Str': 'String', 'Iter': 'Int'}.get(s, s)
 
     def mk_ret(self, sort, e, st):
